@@ -412,3 +412,15 @@ Proof.
       * apply (connected_b_spec _ _ Hwf). vm_compute. reflexivity.
       * right. vm_compute. reflexivity.
 Qed.
+
+(* ------------------------------------------------------------------------ *)
+(* stretch goal of the design, NOT proved: on loop-free graphs the edge-count
+   characterisation of trees used above coincides with "connected and every
+   induced edge is a bridge of the induced subgraph" (no cycle).  Kept visible
+   as a statement; nothing depends on it. *)
+Definition tree_iff_no_cycle_statement : Prop :=
+  forall g act, wf_graph g = true -> loop_free g = true ->
+    (tree g act <->
+     (connected g act /\
+      (forall e a b, nth_error (edges g) e = Some (a, b) -> act a = true -> act b = true ->
+                     ~ reach g act (fun k => negb (Nat.eqb k e)) a b))).
